@@ -896,7 +896,13 @@ impl MT107 {
 
         // Get reference currencies from Sequence C
         let settlement_currency = &self.field_32b.currency;
-        let ref_71f_currency = self.field_71f.as_ref().map(|f| &f.currency);
+        // Reference for 71F: Sequence C if present there, otherwise the first occurrence in Sequence B
+        // (the 71F currencies must agree with each other even when Sequence C carries no 71F)
+        let ref_71f_currency = self.field_71f.as_ref().map(|f| &f.currency).or_else(|| {
+            self.transactions
+                .iter()
+                .find_map(|tx| tx.field_71f.as_ref().map(|f| &f.currency))
+        });
         let ref_71g_currency = self.field_71g.as_ref().map(|f| &f.currency);
 
         // Check 32B currency consistency in Sequence B
